@@ -45,4 +45,31 @@ theorem hyp_noScalar (env : Env) :
   scalar := fun _ h => by cases h
 
 
+theorem hyp_scalarTagOk (env : Env) : Hyp env everyString scalarTagOk scalarText where
+  selTrue := rfl
+  lit := fun _ => rfl
+  esc := fun _ _ _ => rfl
+  scalar := fun f hf b hb => by
+    simp only [scalarText, List.all_eq_true] at hf
+    simp [scalarTagOk, hf b hb]
+
+theorem escapeHtml_single_scalar {b : Nat} (h : isScalarByte b = true) : escapeHtml [b] = [b] :=
+  escapeWith_scalar goodTable_generated [b] (by simp [h])
+
+theorem escapeScalarBytes_eq (l : TStr) (h : ∀ tb ∈ l, scalarTagOk tb = true) :
+    escapeScalarBytes l = erase l := by
+  induction l with
+  | nil => rfl
+  | cons tb rest ih =>
+    have htb := h tb (by simp)
+    have ih' := ih (fun x hx => h x (by simp [hx]))
+    unfold escapeScalarBytes erase at ih' ⊢
+    simp only [List.flatMap_cons, List.map_cons]
+    rw [ih']
+    by_cases hs : tb.2 = Tag.scalar
+    · have hb : isScalarByte tb.1 = true := by simpa [scalarTagOk, hs] using htb
+      simp [hs, escapeHtml_single_scalar hb]
+    · have : (tb.2 == Tag.scalar) = false := by simpa using hs
+      simp [this]
+
 end Tera.C01
